@@ -377,7 +377,7 @@ package ledger
 //@   allocates Delegatee, Stake, BlockMarker, uint256.Int
 //@   ensures items_same() && ((result1 == nil) <==> (result0 != nil))
 //@   ensures result1 == nil ==> wf_delg(result0) && itemkey[result0] == key
-//@   ensures result1 == nil ==> result0 == delgof(l, key, 0)
+//@   ensures result1 == nil ==> result0 == delgof(l, key, 0) && !deadobj[result0] && lkey(content(result0.Addr)) == key
 //@   ensures result1 == nil ==> pw_ok(result0) && stakes_ok(result0)
 
 //@ func (l IFinalityLedger_delegateeLedger) GetFinality(key)
@@ -386,32 +386,38 @@ package ledger
 //@   allocates Delegatee, Stake, BlockMarker, uint256.Int
 //@   ensures items_same() && ((result1 == nil) <==> (result0 != nil))
 //@   ensures result1 == nil ==> wf_delg(result0) && itemkey[result0] == key
-//@   ensures result1 == nil ==> result0 == delgof(l, key, 1)
+//@   ensures result1 == nil ==> result0 == delgof(l, key, 1) && !deadobj[result0] && lkey(content(result0.Addr)) == key
 //@   ensures result1 == nil ==> pw_ok(result0) && stakes_ok(result0)
 
 //@ func (l ILedger_delegateeLedger) Set(item)
 //@   requires !cons_ok                                                                     [C06]
+//@   requires !deadobj[item]                                                              [C11]
 //@   requires wf_delg(item)
 //@   modifies allmaps(memItems.gotItems)
 //@   ensures result == nil
 
 //@ func (l IFinalityLedger_delegateeLedger) SetFinality(item)
 //@   requires cons_ok                                                                     [C06]
+//@   requires !deadobj[item]                                                              [C11]
 //@   requires wf_delg(item)
 //@   modifies allmaps(memItems.gotItems)
 //@   ensures result == nil
 
 //@ func (l ILedger_delegateeLedger) Del(key)
 //@   requires !cons_ok                                                                     [C06]
-//@   modifies allmaps(memItems.gotItems), memItems.removedKeys, allelems(memItems.removedKeys), itemkey, itemenc
+//@   modifies allmaps(memItems.gotItems), memItems.removedKeys, allelems(memItems.removedKeys), itemkey, itemenc, deadobj
 //@   allocates Delegatee, Stake, BlockMarker, uint256.Int
 //@   ensures items_same() && ((result1 == nil) <==> (result0 != nil))
+//@   ensures result1 == nil ==> result0 == delgof(l, key, 0) && deadobj == store(old(deadobj), result0, true)   [C11]
+//@   ensures result1 != nil ==> deadobj == old(deadobj)
 
 //@ func (l IFinalityLedger_delegateeLedger) DelFinality(key)
 //@   requires cons_ok                                                                     [C06]
-//@   modifies allmaps(memItems.gotItems), memItems.removedKeys, allelems(memItems.removedKeys), itemkey, itemenc
+//@   modifies allmaps(memItems.gotItems), memItems.removedKeys, allelems(memItems.removedKeys), itemkey, itemenc, deadobj
 //@   allocates Delegatee, Stake, BlockMarker, uint256.Int
 //@   ensures items_same() && ((result1 == nil) <==> (result0 != nil))
+//@   ensures result1 == nil ==> result0 == delgof(l, key, 1) && deadobj == store(old(deadobj), result0, true)   [C11]
+//@   ensures result1 != nil ==> deadobj == old(deadobj)
 
 //@ func (l ILedger_delegateeLedger) CancelSet(key)
 //@   requires !cons_ok                                                                     [C06]
